@@ -211,14 +211,41 @@ pub fn invariant(c: &Collector, prop: &str, engine: &str, t: &Trans, local: &mut
     }
 }
 
-/// P(g): parameter domain {absent, 0, 1, .., max(C,L)+2, 9999}
+/// P(g): parameter domain {absent, 0, 1, .., max(C,L)+2, 9999}; on large geometries
+/// (beyond 24 columns/lines) the boundary-value domain around powers of two and the edges.
 pub fn pdom(c: u32, l: u32) -> Vec<P> {
     let mut v = vec![None, Some(0)];
-    for i in 1..=(c.max(l) + 2) {
-        v.push(Some(i));
+    if c.max(l) <= 24 {
+        for i in 1..=(c.max(l) + 2) {
+            v.push(Some(i));
+        }
+        v.push(Some(9999));
+    } else {
+        let mut b: Vec<u32> = vec![1, 2, 3, 127, 128, 129, 254, 255, 256, 257, 258, 1000, 4095, 4096, 9999];
+        for n in [c, l] {
+            for d in [n.saturating_sub(2), n.saturating_sub(1), n, n + 1, n + 2] {
+                b.push(d);
+            }
+        }
+        b.retain(|x| *x >= 1);
+        b.sort_unstable();
+        b.dedup();
+        v.extend(b.into_iter().map(Some));
     }
-    v.push(Some(9999));
     v
+}
+
+/// sizes to resize to: every size 1..=n+2 on small screens, boundary values on large ones
+pub fn size_dom(n: u32) -> Vec<u32> {
+    if n <= 24 {
+        (1..=(n + 2)).collect()
+    } else {
+        let mut b: Vec<u32> = vec![1, 2, 3, 255, 256, 257, n.saturating_sub(1), n, n + 1];
+        b.retain(|x| *x >= 1);
+        b.sort_unstable();
+        b.dedup();
+        b
+    }
 }
 
 /// May the post-state of a transition that this check does not judge be expanded?
